@@ -96,9 +96,9 @@ func (s *Scanner) scanNumberFragment() string {
 				s.errorAtPos(M_Numeric_separators_are_not_allowed_here, s.pos, 1)
 			}
 
-			start = s.pos
 			underlineStart = s.pos
 			s.pos += size
+			start = s.pos
 			continue
 		}
 
